@@ -85,9 +85,24 @@ PROPS = {
                           'satisfying it (induction over all operation histories), with full-view postconditions (every other record unchanged) and exact NaN semantics.',
             'level_note': MODEL_NOTE + ' The running mean is stated as wavg(n/(n+1), old mean, new sample) — the identity with the arithmetic mean is real arithmetic.',
             'not_decided': []},
-    'C10': {'bundles': ['ledger'], 'level': 'proof',
+    'C18': {'bundles': ['radii', 'table', 'ledger'], 'level': 'proof',
+            'level_text': 'Radii: 0 < rho <= delta, rho <= rhobeg, rescaled rhoend <= rho, delta <= 1e10 are a class invariant of Controller, proved at all radius writes '
+                          '(Controller.__init__, reduce_rho, check_and_fix_geometry, soft_restart, and the reset / safety / ratio blocks of solve_main) in real arithmetic, with '
+                          'the local rhoend of solve_main proved equal to the controller\'s rescaled one; rho is non-increasing except at restarts and the documented reset. '
+                          'Table: DiagnosticInfo keeps 23 documented columns of equal length, one row per save_info_from_control, iters_total[i] == i, update_* need an existing row '
+                          '(call order proved on every path of solve_main); recorded nf/nx/nruns are the ledger counters.',
+            'level_note': ('Domain Rd: real scalars (machine arithmetic treated as mathematical), sqrt axiomatised, norms non-negative, params inside the range table read from '
+                           'params.py (A-params). The cap delta <= 1e10 is claimed for h is None and under the quantifier assumption 1.5*rhobeg <= 1e10; the clause rhoend <= rho is claimed '
+                           'while the rescaled rhoend does not exceed rhobeg (O9); restarts.rhoend_scale > 0 is a stated sub-range (O11). Frames of methods without contract are '
+                           'syntactic and name-based. ') + LEDGER_NOTE,
+            'not_decided': ['delta <= 1e10 with a regulariser (tau has no positive lower bound)', 'recorded best objective never increases (follows from C04, not re-proved here)',
+                            'number of interpolation points between 2 and the maximum']},
+    'C10': {'bundles': ['ledger', 'radii'], 'level': 'proof',
             'level_text': 'One obligation per exit site: MAXFUN flag implies nf == maxfun, the max-restarts message implies that many runs, '
                           'nruns == restarts + 1 via a ghost restart counter checked at every break/continue/return of solve_main and solve.',
-            'level_note': LEDGER_NOTE + ' Clauses (a) sufficiently small, (b) rho == rhoend and (f) finite objective are decided in the model / radii bundles.',
-            'not_decided': []},
+            'level_note': LEDGER_NOTE + ' (b) "rho has reached rhoend" => rho == rescaled rhoend is proved in domain Rd (real scalars) at both message sites. (a) "sufficiently small" is a '
+                          'composition argued in DESIGN.md from proved pieces (the flagged point is offered to save_point; save_point/get_final_results keep the NaN-aware minimum; no restart '
+                          'follows that message), not a single SMT obligation. (f) is refuted at the two max-restarts SUCCESS sites (known finding, native witness); at the other SUCCESS sites it '
+                          'rests on numeric assumption N3.',
+            'not_decided': ['(a) as one obligation', '(f) at the rho-reached-rhoend / noise-level sites (N3)']},
 }
